@@ -144,6 +144,17 @@ def cross_graph_cases():
     a = IR.func("A", ["x"], ["p", "q"], cache=True, fid="shared_h", tname="H", olabels=["r1", "r2"])
     b = IR.func("A", ["x"], ["q", "p"], cache=True, fid="shared_h", tname="H", olabels=["r1", "r2"])
     out.append((IR.prog("top", [a]), IR.prog("top", [b]), [["x", "in.x"]], "shared-func/permuted-outputs"))
+    # the same function and the same output name, inputs exchanged by ONE with_inputs() call in the second graph:
+    # both nodes are fed {x: in.x, y: in.y}, but the underlying parameters receive them the other way round
+    a = IR.func("A", ["x", "y"], ["p"], cache=True, fid="shared_sw", tname="SW", olabels=["r1"])
+    b = IR.func("A", ["y", "x"], ["p"], cache=True, fid="shared_sw", tname="SW", olabels=["r1"])
+    b["pmap"] = [["y", "x"], ["x", "y"]]
+    out.append((IR.prog("top", [a]), IR.prog("top", [b]), [["x", "in.x"], ["y", "in.y"]], "shared-func/swapped-inputs-across-graphs"))
+    # ... and a rotation that re-uses the names (x->y, y->z, z->x)
+    a = IR.func("A", ["x", "y", "z"], ["p"], cache=True, fid="shared_rot", tname="ROT", olabels=["r1"])
+    b = IR.func("A", ["y", "z", "x"], ["p"], cache=True, fid="shared_rot", tname="ROT", olabels=["r1"])
+    b["pmap"] = [["y", "x"], ["z", "y"], ["x", "z"]]
+    out.append((IR.prog("top", [a]), IR.prog("top", [b]), [["x", "in.x"], ["y", "in.y"], ["z", "in.z"]], "shared-func/rotated-inputs-across-graphs"))
     # the same routing function in two if/else gates with exchanged targets
     def gate(t, f):
         return IR.ifelse("G", ["x"], t, f, [[t]], cache=True, fid="shared_dec", tname="DEC", pure=True)
